@@ -1,10 +1,153 @@
-(* Property C17 - only statements closed by `exact`, each followed by Print Assumptions. *)
+(* Property C17 - only statements closed by `exact`, each followed by Print Assumptions, plus
+   non-vacuity Examples.
+
+   Clauses of the property  ->  theorems
+   "for every message, Sha256 produces the FIPS 180-4 digest no matter how the message is split
+    across update() calls"
+        digest_any_chunking (any list of chunks), update_any_chunk (the invariant step),
+        hash_equals_fips (the static helper), finalize_equals_fips, finalize_terminates (the padding
+        loop never exhausts its fuel), transform_equals_fips_compress (one block), tables_match_fips
+   "a hasher can be reused after finalize() or reset()"
+        finalize_equals_fips / digest_any_chunking (the hasher left behind has absorbed []),
+        reset_gives_fresh, history_refines_spec (arbitrary interleavings on one hasher)
+   "hmac() produces the RFC 2104 value for every key length and every message"
+        hmac_equals_rfc2104
+   everything together, for every history of update/finalize/reset/hash/hmac:
+        step_refines_spec, history_refines_spec, reachable_states_invariant
+   The only side conditions are: bytes are in 0..255 (wf_bytes) and whatever is finalized is shorter
+   than max_len = 2^61 bytes (op_ok / ops_ok); Inv p m reads "hasher p has absorbed message m". *)
 From Coq Require Import ZArith List.
 From Common Require Import Words ListAux.
-From Sha Require Import Gen_Sha ShaSpec ShaModel ShaProofs.
+From Sha Require Import Gen_Sha ShaSpec ShaModel ShaProofs ShaRound ShaCompress ShaStream ShaFinal ShaHmac.
 Import ListNotations.
 Local Open Scope Z_scope.
 
-Theorem tables_match_fips : gen_K = fips_K /\ gen_H0 = fips_H0.
-Proof. exact (conj gen_K_is_fips gen_H0_is_fips). Qed.
+Theorem tables_match_fips : gen_K = fips_K /\ gen_H0 = fips_H0 /\ gen_ipad = 0x36 /\ gen_opad = 0x5c.
+Proof. exact (conj gen_K_is_fips (conj gen_H0_is_fips (conj eq_refl eq_refl))). Qed.
 Print Assumptions tables_match_fips.
+
+Theorem transform_equals_fips_compress : forall st data, is8 st -> length data = 16%nat ->
+  Transform st data = compress st data.
+Proof. exact Transform_compress. Qed.
+Print Assumptions transform_equals_fips_compress.
+
+Theorem init_is_fresh : Inv init [].
+Proof. exact init_inv. Qed.
+Print Assumptions init_is_fresh.
+
+Theorem update_any_chunk : forall p m d, Inv p m -> wf_bytes d = true -> Inv (update p d) (m ++ d).
+Proof. exact update_inv. Qed.
+Print Assumptions update_any_chunk.
+
+Theorem finalize_terminates : forall p m, Inv p m -> finalize p <> None.
+Proof. exact finalize_total. Qed.
+Print Assumptions finalize_terminates.
+
+Theorem finalize_equals_fips : forall p m, Inv p m -> Z.of_nat (length m) < max_len ->
+  exists p', finalize p = Some (fips_sha256 m, p') /\ Inv p' [].
+Proof. exact finalize_inv. Qed.
+Print Assumptions finalize_equals_fips.
+
+Theorem digest_any_chunking : forall cs, Forall (fun c => wf_bytes c = true) cs ->
+  Z.of_nat (length (concat cs)) < max_len ->
+  exists p', finalize (fold_left update cs init) = Some (fips_sha256 (concat cs), p') /\ Inv p' [].
+Proof. exact chunking_irrelevant. Qed.
+Print Assumptions digest_any_chunking.
+
+Theorem reset_gives_fresh : forall p m, Inv p m -> Inv (reset p) [].
+Proof. exact reset_inv. Qed.
+Print Assumptions reset_gives_fresh.
+
+Theorem hash_equals_fips : forall d, wf_bytes d = true -> Z.of_nat (length d) < max_len ->
+  hash d = Some (fips_sha256 d).
+Proof. exact hash_correct. Qed.
+Print Assumptions hash_equals_fips.
+
+Theorem hmac_equals_rfc2104 : forall key msg, wf_bytes key = true -> wf_bytes msg = true ->
+  Z.of_nat (length key) < max_len -> 64 + Z.of_nat (length msg) < max_len ->
+  hmac key msg = Some (rfc2104 key msg).
+Proof. exact hmac_correct. Qed.
+Print Assumptions hmac_equals_rfc2104.
+
+Theorem step_refines_spec : forall p m o, Inv p m -> op_ok m o ->
+  Inv (fst (step p o)) (fst (spec_step m o)) /\ snd (step p o) = snd (spec_step m o).
+Proof. exact step_refines. Qed.
+Print Assumptions step_refines_spec.
+
+Theorem history_refines_spec : forall ops, ops_ok [] ops -> run init ops = spec_run [] ops.
+Proof. exact (fun ops => run_refines ops init [] init_inv). Qed.
+Print Assumptions history_refines_spec.
+
+Theorem reachable_states_invariant : forall ops, ops_ok [] ops ->
+  Inv (fold_left (fun p o => fst (step p o)) ops init) (fold_left (fun m o => fst (spec_step m o)) ops []).
+Proof. exact (fun ops => run_inv ops init [] init_inv). Qed.
+Print Assumptions reachable_states_invariant.
+
+(* ---- non-vacuity and known answers -------------------------------------------------------------- *)
+(* the transcription of the standard gives the published values: FIPS 180-2 B.1 "abc" ... *)
+Example kat_spec_abc : fips_sha256 [97; 98; 99] =
+  [186; 120; 22; 191; 143; 1; 207; 234; 65; 65; 64; 222; 93; 174; 34; 35;
+   176; 3; 97; 163; 150; 23; 122; 156; 180; 16; 255; 97; 242; 0; 21; 173].
+Proof. vm_compute. reflexivity. Qed.
+(* ... RFC 4231 test case 2 (key "Jefe", shorter than a block) ... *)
+Example kat_spec_hmac_short_key :
+  rfc2104 [74; 101; 102; 101]
+    [119; 104; 97; 116; 32; 100; 111; 32; 121; 97; 32; 119; 97; 110; 116; 32; 102; 111; 114; 32; 110; 111; 116; 104; 105; 110; 103; 63] =
+  [91; 220; 193; 70; 191; 96; 117; 78; 106; 4; 36; 38; 8; 149; 117; 199;
+   90; 0; 63; 8; 157; 39; 57; 131; 157; 236; 88; 185; 100; 236; 56; 67].
+Proof. vm_compute. reflexivity. Qed.
+(* ... and RFC 4231 test case 6 (131-byte key, longer than a block) *)
+Example kat_spec_hmac_long_key :
+  rfc2104 (repeat 170 131)
+    [84; 101; 115; 116; 32; 85; 115; 105; 110; 103; 32; 76; 97; 114; 103; 101; 114; 32; 84; 104; 97; 110; 32; 66; 108; 111; 99; 107; 45;
+     83; 105; 122; 101; 32; 75; 101; 121; 32; 45; 32; 72; 97; 115; 104; 32; 75; 101; 121; 32; 70; 105; 114; 115; 116] =
+  [96; 228; 49; 89; 30; 224; 182; 127; 13; 138; 38; 170; 203; 245; 183; 127;
+   142; 11; 198; 33; 55; 40; 197; 20; 5; 70; 4; 15; 14; 227; 127; 84].
+Proof. vm_compute. reflexivity. Qed.
+
+(* the model computes (not only "is proved equal to") the same values *)
+Example kat_model_abc : hash [97; 98; 99] =
+  Some [186; 120; 22; 191; 143; 1; 207; 234; 65; 65; 64; 222; 93; 174; 34; 35;
+        176; 3; 97; 163; 150; 23; 122; 156; 180; 16; 255; 97; 242; 0; 21; 173].
+Proof. vm_compute. reflexivity. Qed.
+Example kat_model_hmac_long_key :
+  hmac (repeat 170 131)
+    [84; 101; 115; 116; 32; 85; 115; 105; 110; 103; 32; 76; 97; 114; 103; 101; 114; 32; 84; 104; 97; 110; 32; 66; 108; 111; 99; 107; 45;
+     83; 105; 122; 101; 32; 75; 101; 121; 32; 45; 32; 72; 97; 115; 104; 32; 75; 101; 121; 32; 70; 105; 114; 115; 116] =
+  Some [96; 228; 49; 89; 30; 224; 182; 127; 13; 138; 38; 170; 203; 245; 183; 127;
+        142; 11; 198; 33; 55; 40; 197; 20; 5; 70; 4; 15; 14; 227; 127; 84].
+Proof. vm_compute. reflexivity. Qed.
+
+(* the hypotheses are satisfiable on non-trivial objects: eight words; a hasher in the middle of its
+   second block (70 bytes absorbed: one block compressed, six bytes buffered) *)
+Example ex_is8 : is8 fips_H0 /\ length (words_of_block (repeat 7 64)) = 16%nat.
+Proof. split; [ exact H0_is8 | vm_compute; reflexivity ]. Qed.
+Example ex_inv_mid_block :
+  let m := map (fun i => (Z.of_nat i * 7 + 1) mod 256) (seq 0 70) in
+  InvS (update (update init (firstn 33 m)) (skipn 33 m)) (firstn 64 m) (skipn 64 m)
+  /\ state (update init m) <> gen_H0 /\ count (update init m) = 70.
+Proof.
+  cbv zeta. split; [ | split; [ vm_compute; discriminate | vm_compute; reflexivity ] ].
+  unfold InvS.
+  split; [ vm_compute; reflexivity | ]. split; [ vm_compute; reflexivity | ].
+  split; [ vm_compute; reflexivity | ]. split; [ exists 1%nat; vm_compute; reflexivity | ].
+  split; [ vm_compute; repeat apply le_n_S; apply Nat.le_0_l | ].
+  split; vm_compute; reflexivity.
+Qed.
+Example ex_chunks : Forall (fun c => wf_bytes c = true) [[97]; []; [98; 99]]
+  /\ concat [[97]; []; [98; 99]] = [97; 98; 99]
+  /\ Z.of_nat (length (concat [[97]; []; [98; 99]])) < max_len.
+Proof. repeat constructor. Qed.
+(* a history that reuses one hasher after finalize and after reset, with both kinds of hmac key *)
+Example ex_history :
+  let ops := [OUpdate [97]; OUpdate [98; 99]; OFinalize; OUpdate [1; 2; 3]; OReset;
+              OUpdate (repeat 0 56); OUpdate (repeat 255 9); OFinalize; OFinalize;
+              OHash [97; 98; 99]; OHmac [74; 101; 102; 101] [1]; OHmac (repeat 170 65) []] in
+  ops_ok [] ops
+  /\ map (fun r => match r with Some d => firstn 3 d | None => [] end) (run init ops)
+     = [[]; []; [186; 120; 22]; []; []; []; []; [79; 232; 72]; [227; 176; 196]; [186; 120; 22];
+        [20; 187; 31]; [52; 152; 142]].
+Proof.
+  cbv zeta. split; [ | vm_compute; reflexivity ].
+  cbn [ops_ok op_ok spec_step fst]. repeat split; vm_compute; reflexivity.
+Qed.
